@@ -280,12 +280,14 @@ func fragLeaves(full bool) []*qt.Node {
 	ls := []*qt.Node{
 		qt.F("s", qt.Word("foo")), qt.F("n", qt.Int(5)), qt.Cmp("n", ">=", qt.Int(4)), qt.Range("n", qt.Int(1), qt.Int(5), true),
 		qt.List("s", qt.Word("x"), qt.Word("y")), qt.F("s", qt.Wild("fo*")), qt.Cmp("m", "<", qt.Float("2.5")), qt.F("t", qt.Phrase("it's")),
+		// a field name that begins with a digit: behind a + or - the sign is a prefix operator
+		qt.Range("2b", qt.Int(1), qt.Int(5), true),
 	}
 	if full {
 		ls = append(ls,
 			qt.Range("n", qt.Int(2), qt.Open(), false), qt.Range("m", qt.Open(), qt.Float("0.125"), true), qt.Range("m", qt.Float("1.5"), qt.Float("2.5"), false),
 			qt.List("n", qt.Int(1), qt.Int(2), qt.Int(-3)), qt.F("t", qt.Wild("a?c")), qt.Cmp("t", ">", qt.Word("m")), qt.Cmp("n", "<=", qt.Int(-4)), qt.F("m", qt.Float("0.001")),
-			qt.Range("s", qt.Word("aa"), qt.Word("zz"), true),
+			qt.Range("s", qt.Word("aa"), qt.Word("zz"), true), qt.F("1a", qt.Word("b")), qt.List("3c", qt.Int(1), qt.Int(2)), qt.Cmp("4d", ">", qt.Int(5)),
 		)
 	}
 	return ls
